@@ -15,7 +15,9 @@ import (
 	authsigning "github.com/cosmos/cosmos-sdk/x/auth/signing"
 )
 
-func (c *Chain) signBytesOf(msg sdk.Msg, mode signing.SignMode) (h string, panicked bool) {
+// signBytesOf returns the bytes the SIGNER computes from the message value; with node=true, the bytes the NODE's signature verifier computes: the
+// transaction is encoded, decoded, and every message has been through ValidateBasic (the ante chain validates before it verifies signatures).
+func (c *Chain) signBytesOf(msg sdk.Msg, mode signing.SignMode, node bool) (h string, panicked bool) {
 	defer func() {
 		if r := recover(); r != nil {
 			h, panicked = "unavailable", !strings.Contains(fmt.Sprint(r), "LegacyMsg")
@@ -34,7 +36,22 @@ func (c *Chain) signBytesOf(msg sdk.Msg, mode signing.SignMode) (h string, panic
 		return "unavailable", false
 	}
 	sd := authsigning.SignerData{Address: a.Bech, ChainID: chainID, AccountNumber: 3, Sequence: 7, PubKey: a.Priv.PubKey()}
-	bz, err := txCfg.SignModeHandler().GetSignBytes(mode, sd, b.GetTx())
+	var theTx authsigning.Tx = b.GetTx()
+	if node {
+		raw, err := txCfg.TxEncoder()(b.GetTx())
+		if err != nil {
+			return "unavailable", false
+		}
+		dec, err := txCfg.TxDecoder()(raw)
+		if err != nil {
+			return "unavailable", false
+		}
+		for _, m := range dec.GetMsgs() {
+			_ = m.ValidateBasic()
+		}
+		theTx = dec.(authsigning.Tx)
+	}
+	bz, err := txCfg.SignModeHandler().GetSignBytes(mode, sd, theTx)
 	if err != nil {
 		return "unavailable", false
 	}
@@ -81,12 +98,15 @@ func cmdSignBytes(args []string) error {
 				name string
 				mode signing.SignMode
 			}{{"direct", signing.SignMode_SIGN_MODE_DIRECT}, {"aux", signing.SignMode_SIGN_MODE_DIRECT_AUX}, {"amino", signing.SignMode_SIGN_MODE_LEGACY_AMINO_JSON}} {
-				h1, p1 := c.signBytesOf(msg, md.mode)
+				h1, p1 := c.signBytesOf(msg, md.mode, false)
 				msg2, _ := c.concMsg(m) // a second, independently built value of the same message
-				h2, _ := c.signBytesOf(msg2, md.mode)
-				h3, _ := c.signBytesOf(msg, md.mode)
+				h2, _ := c.signBytesOf(msg2, md.mode, false)
+				h3, _ := c.signBytesOf(msg, md.mode, false)
+				msg3, _ := c.concMsg(m)
+				h4, _ := c.signBytesOf(msg3, md.mode, true) // what the node's verifier computes for the same transaction
+				h5, _ := c.signBytesOf(msg3, md.mode, false) // and the signer again, after the node path has handled the value
 				rec[md.name] = h1
-				if h1 != h2 || h1 != h3 {
+				if h1 != h2 || h1 != h3 || h1 != h4 || h1 != h5 {
 					rec["det"] = false
 				}
 				if p1 {
